@@ -94,3 +94,31 @@ def _contains(tree, node):
         if n is node:
             return True
     return False
+
+
+def visible_defs(par, use, name):
+    """Initialisers that can define local `name` at the use site, by lexical scoping: `let name = init` statements that precede
+    the use in a block enclosing it (the nearest such block shadows outer ones), plus every `name = rhs` assignment inside the
+    statements of that block (loops re-define an accumulator after its use in program text)."""
+    from synq import walk, show
+    cur = use
+    while id(cur) in par:
+        p = par[id(cur)]
+        if p.get("k") == "block":
+            idx = None
+            for i, st in enumerate(p["s"]):
+                if st is cur or _contains(st, cur):
+                    idx = i
+                    break
+            if idx is not None:
+                lets = [st for st in p["s"][:idx] if st.get("k") == "local" and st.get("init") is not None and show(st["pat"]).replace("mut ", "") == name]
+                if lets:
+                    out = [lets[-1]["init"]]
+                    j = p["s"].index(lets[-1])
+                    for st in p["s"][j + 1:]:
+                        for a in walk(st):
+                            if a.get("k") == "assign" and show(a["lhs"]) == name:
+                                out.append(a["rhs"])
+                    return out
+        cur = p
+    return []
